@@ -65,7 +65,7 @@ def main():
     assert rc == 0, out
     results = {}
     try:
-        for m in ("A", "B", "C", "D", "E", "F", "G", "H", "I", "J", "K", "L"):
+        for m in ("A", "B", "C", "D", "E", "F", "G", "H", "I", "J", "K", "L", "M", "N"):
             patch = os.path.join(outdir, f"patch_{m}.diff")
             demo = f"demo_{m}.py"
             if not os.path.exists(patch):
